@@ -35,7 +35,7 @@ ASSUMPTIONS = ["the antenna voltage stream is what get_samples returned (C10/C15
                "a run whose digitiser input sits within 1e-9 of a rounding boundary is not value-judged (counted as tie)"]
 PROBES = ["last_subblock_shorter", "num_subblocks_adjusted", "subblocks_exceed_windows", "multi_file_last_partial",
           "retry_after_fault", "partition_twin_compared", "collect_vs_record", "four_bit", "array_source",
-          "stats_refresh_mid_recording"]
+          "stats_refresh_mid_recording", "retry_over_leftover_files"]
 
 
 def generate(rng, tier):
@@ -249,7 +249,11 @@ def execute(sc, ctx):
                 retry = dict(op)
                 retry["fault"] = None
                 ctx.op("record_retry")
-                status2, _ = _record_and_judge(ctx, sc, backend, log, ctx.seams.path("r%dretry" % j), retry, be)
+                # the user re-runs the same command: half of the retries go to the *same* stem, over the leftovers
+                rstem = stem if (j + op["num_blocks"]) % 2 == 0 else ctx.seams.path("r%dretry" % j)
+                if rstem == stem:
+                    ctx.hit("retry_over_leftover_files")
+                status2, _ = _record_and_judge(ctx, sc, backend, log, rstem, retry, be)
                 if status2 == "ok":
                     ctx.hit("retry_after_fault")
                 last_fault = False
